@@ -45,4 +45,12 @@ inductive Prescribed (fl : Flags) (idx : Option Bool) (vs : List RV) (r : RV) : 
 def LastResort (fl : Flags) (idx : Option Bool) (vs : List RV) : Prop :=
   ¬CurOk fl idx vs ∧ ¬(fl.usePre = true ∧ AnySel fl idx vs) ∧ ¬AnyStableSel fl idx vs
 
+/-- The versions a purge must not touch: the active version, the selected version, the newest stable version. -/
+def Required (r : Res) (v : Ver) : Prop :=
+  r.active = some v ∨ r.selected = some v ∨
+    ∃ rv, Newest (fun x => x.pre = false) r.versions rv ∧ rv.ver = v
+
+/-- The resource lists as available only versions whose file is on disk. -/
+def ListingSound (r : Res) : Prop := ∀ rv ∈ r.versions, rv.avail = true → (rv.ver, 0) ∈ r.disk
+
 end PB.Updater.Spec
